@@ -450,7 +450,9 @@ def refute(tier, seed, emit):
     OPTSETS = [{'extrema_opts': {'pad_width': 3, 'parabolic_extrema': True}},
                {'envelope_opts': {'interp_method': 'pchip'}, 'extrema_opts': {'pad_width': 1}},
                {'imf_opts': {'stop_method': 'rilling', 'env_step_size': 0.7}},
-               {'imf_opts': {'stop_method': 'fixed', 'max_iters': 4}, 'envelope_opts': {'interp_method': 'mono_pchip'}, 'extrema_opts': {'pad_width': 4, 'loc_pad_opts': {'mode': 'reflect', 'reflect_type': 'even'}}}]
+               # (locations padded by EVEN reflection never reach beyond the record, and get_padded_extrema keeps padding for ever: an option the
+               #  padding rule cannot work with - not used; the magnitudes may be padded with any statistic)
+               {'imf_opts': {'stop_method': 'fixed', 'max_iters': 4}, 'envelope_opts': {'interp_method': 'mono_pchip'}, 'extrema_opts': {'pad_width': 4, 'mag_pad_opts': {'mode': 'mean', 'stat_length': 2}}}]
     if tier == 'quick':
         OPTSETS = OPTSETS[:3]
     emit.scope('%d signals x {sift, mask_sift (nphases 1, 4)} x %d non-default option sets (stopping rule, step size, envelope interpolation, extrema padding / parabolic extrema): every component is the (masked) single-IMF extraction UNDER THE SAME OPTIONS of the input minus the components before it' % (min(nsig, 3), len(OPTSETS)))
